@@ -5,7 +5,7 @@ use crate::{
         wal::AnalysisResult,
     },
     runtime::{
-        RuntimeResult,
+        RuntimeError, RuntimeResult,
         context::{ThreadContext, TransactionLogger},
         ddl::{
             AlterTableInstr, CreateIndexInstr, CreateTableInstr, DdlExecutor, DdlInstruction,
@@ -13,6 +13,7 @@ use crate::{
         },
         dml::DmlExecutor,
     },
+    schema::catalog::CatalogError,
     storage::tuple::Row,
 };
 
@@ -47,15 +48,22 @@ impl WalRecuperator {
                 ErrorKind::NotSeekable,
                 "transaction not found in th write ahead analysis",
             ))? {
+                // A loser may have written to a table whose creation is itself only in the log
+                // (not yet redone, never reached the data file): there is nothing to undo then.
+                let no_such_table = |r: RuntimeResult<()>| match r {
+                    Err(RuntimeError::Catalog(CatalogError::TableNotFound(_))) => Ok(()),
+                    other => other,
+                };
+
                 if let Some(delete_operation) = analysis.delete_ops.get(&lsn) {
-                    self.undo_delete(delete_operation)?;
+                    no_such_table(self.undo_delete(delete_operation))?;
                 }
                 if let Some(update_operation) = analysis.update_ops.get(&lsn) {
-                    self.undo_update(update_operation)?;
+                    no_such_table(self.undo_update(update_operation))?;
                 }
 
                 if let Some(insert_operation) = analysis.insert_ops.get(&lsn) {
-                    self.undo_insert(insert_operation)?;
+                    no_such_table(self.undo_insert(insert_operation))?;
                 }
 
                 if let Some(create_operation) = analysis.create_ops.get(&lsn) {
@@ -119,17 +127,24 @@ impl WalRecuperator {
             return Ok(());
         }
 
+        // Redo must be repeatable: if the object already reached the data file (crash after the
+        // checkpoint wrote it but before the log was reset) there is nothing left to do.
+        let already_there = |r: RuntimeResult<_>| match r {
+            Err(RuntimeError::AlreadyExists(_)) => Ok(()),
+            other => other.map(|_| ()),
+        };
+
         // Try to deserialize as CreateTableInstr first
         if let Ok(create_table_instr) = CreateTableInstr::from_bytes(redo_bytes) {
             let instr = DdlInstruction::CreateTable(create_table_instr);
-            self.ddl_executor.execute_instruction(&instr)?;
+            already_there(self.ddl_executor.execute_instruction(&instr))?;
             return Ok(());
         }
 
         // Try CreateIndexInstr
         if let Ok(create_index_instr) = CreateIndexInstr::from_bytes(redo_bytes) {
             let instr = DdlInstruction::CreateIndex(create_index_instr);
-            self.ddl_executor.execute_instruction(&instr)?;
+            already_there(self.ddl_executor.execute_instruction(&instr))?;
             return Ok(());
         }
 
